@@ -26,6 +26,7 @@ func main() {
 	list := flag.Bool("list", false, "list properties")
 	dump := flag.String("dump", "", "dev aid: rel,recv,func — print all paths of a function")
 	dumpPat := flag.String("dump-pkgs", ".", "patterns to load for -dump")
+	alpha := flag.String("alpha-out", "", "dev/self-test: write an alpha-renamed copy (every local x → x_ar) of the property's packages under this directory")
 	variant := flag.String("variant-overlay", "", "internal (thorough self-test): run the quick rules on /repo overlaid with the files under this directory, print one VARIANT line, write nothing")
 	flag.Parse()
 	if *dump != "" {
@@ -57,6 +58,13 @@ func main() {
 	if p == nil {
 		fmt.Fprintf(os.Stderr, "unknown property %q\n", *prop)
 		os.Exit(2)
+	}
+	if *alpha != "" {
+		if err := alphaVariant(p, *repo, *alpha); err != nil {
+			fmt.Fprintln(os.Stderr, "alpha:", err)
+			os.Exit(2)
+		}
+		return
 	}
 	if *variant != "" {
 		os.Exit(runVariant(p, *repo, *root, *variant))
